@@ -354,3 +354,132 @@ Section RInv.
     induction 1 as [|s l s' Hr IH Hstep]; [apply RInv_init|]. eapply RInv_step; eassumption.
   Qed.
 End RInv.
+
+(* ------------------------------------------------------------------ *)
+(** * C08: ReadIndex (Safe mode) is linearizable *)
+
+Section C08.
+  Variables (inc out : list N).
+  Hypothesis inc_nonempty : inc <> [].
+  Hypothesis Hmulti : no_single_quorum inc out.
+  Notation rrule := (rrule inc out).
+  Notation rreachable := (rreachable inc out).
+  Notation rsteps := (rsteps inc out).
+
+  (* Every answer carries the index recorded for a request of that node, term and
+     context, and that index is at least every commit point that existed when the
+     request was recorded -- all of which are of terms <= the leader's. *)
+  Theorem read_linearizable s c t ctx idx : rreachable s -> In (c, t, ctx, idx) (pr_served s) ->
+    exists snap, In (c, t, ctx, idx, snap) (pr_reqs s) /\
+      forall T k, In (T, k) snap -> T <= t /\ (k <= idx)%nat.
+  Proof. intros Hr. apply (r_served inc out s (rreachable_RInv inc out inc_nonempty Hmulti s Hr)). Qed.
+
+  (* which steps record requests, acknowledgements and answers *)
+  Theorem request_rule s l s' : rrule l s = Some s' ->
+    pr_reqs s' = pr_reqs s \/
+    exists c ctx, l = RReadReq c ctx /\
+      p_up (nodes (el (pr_lg s)) c) = true /\ p_role (nodes (el (pr_lg s)) c) = PL /\
+      pr_lg s' = pr_lg s /\
+      pr_reqs s' = pr_reqs s ++ [(c, p_term (nodes (el (pr_lg s)) c), ctx, l_commit (ln (pr_lg s) c), cpts (pr_lg s))].
+  Proof.
+    intros H. destruct l as [ll|c ctx|q c t ctx|c ctx].
+    - left. destruct (rlog_inv _ _ _ _ _ H) as (g & _ & ->). reflexivity.
+    - right. apply rreadreq_inv in H. cbv zeta in H. destruct H as (Hup & Hrl & _ & _ & _ & ->).
+      exists c, ctx. auto.
+    - left. apply rhback_inv in H. destruct H as (_ & _ & _ & _ & ->). reflexivity.
+    - left. apply rserve_inv in H. cbv zeta in H. destruct H as (r & later & _ & _ & _ & _ & ->). reflexivity.
+  Qed.
+
+  Theorem ack_rule s l s' : rrule l s = Some s' ->
+    pr_hacks s' = pr_hacks s \/
+    exists q c t ctx, l = RHbAck q c t ctx /\ pr_hacks s' = (q, c, t, ctx) :: pr_hacks s /\
+      p_up (nodes (el (pr_lg s)) q) = true /\ p_term (nodes (el (pr_lg s)) q) = t /\
+      exists idx snap, In (c, t, ctx, idx, snap) (pr_reqs s).
+  Proof.
+    intros H. destruct l as [ll|c ctx|q c t ctx|c ctx].
+    - left. destruct (rlog_inv _ _ _ _ _ H) as (g & _ & ->). reflexivity.
+    - left. apply rreadreq_inv in H. cbv zeta in H. destruct H as (_ & _ & _ & _ & _ & ->). reflexivity.
+    - right. apply rhback_inv in H. destruct H as (Hup & Ht & _ & Hex & ->). exists q, c, t, ctx.
+      repeat split; try assumption. apply existsb_req_In in Hex. destruct Hex as (r & Hin & <- & <- & <-).
+      exists (rq_idx r), (rq_snap r). rewrite <- req_eta. exact Hin.
+    - left. apply rserve_inv in H. cbv zeta in H. destruct H as (r & later & _ & _ & _ & _ & ->). reflexivity.
+  Qed.
+
+  (* an answer is produced on the node that recorded the request, while it is up and in the
+     leader role of the term of the request *)
+  Theorem serve_rule s l s' : rrule l s = Some s' ->
+    pr_served s' = pr_served s \/
+    exists c ctx idx, l = RReadServe c ctx /\
+      pr_served s' = (c, p_term (nodes (el (pr_lg s)) c), ctx, idx) :: pr_served s /\
+      p_up (nodes (el (pr_lg s)) c) = true /\ p_role (nodes (el (pr_lg s)) c) = PL.
+  Proof.
+    intros H. destruct l as [ll|c ctx|q c t ctx|c ctx].
+    - left. destruct (rlog_inv _ _ _ _ _ H) as (g & _ & ->). reflexivity.
+    - left. apply rreadreq_inv in H. cbv zeta in H. destruct H as (_ & _ & _ & _ & _ & ->). reflexivity.
+    - left. apply rhback_inv in H. destruct H as (_ & _ & _ & _ & ->). reflexivity.
+    - right. apply rserve_inv in H. cbv zeta in H. destruct H as (r & later & _ & Hup & Hrl & _ & ->).
+      exists c, ctx, (rq_idx r). auto.
+  Qed.
+
+  (* the enabled-step form of the main theorem *)
+  Theorem read_serve_linearizable s c ctx s' : rreachable s -> rrule (RReadServe c ctx) s = Some s' ->
+    exists idx snap, pr_served s' = (c, p_term (nodes (el (pr_lg s)) c), ctx, idx) :: pr_served s /\
+      In (c, p_term (nodes (el (pr_lg s)) c), ctx, idx, snap) (pr_reqs s) /\
+      forall T k, In (T, k) snap -> T <= p_term (nodes (el (pr_lg s)) c) /\ (k <= idx)%nat.
+  Proof.
+    intros Hr H. assert (Hr' : rreachable s') by (eapply rreach_step; eassumption).
+    destruct (serve_rule s _ s' H) as [E|(c0 & ctx0 & idx & El & Es & _ & _)].
+    - exfalso. apply rserve_inv in H. cbv zeta in H. destruct H as (r & later & _ & _ & _ & _ & ->).
+      cbn in E. apply (f_equal (@length _)) in E. cbn in E. lia.
+    - inversion El; subst c0 ctx0. exists idx.
+      destruct (read_linearizable s' c (p_term (nodes (el (pr_lg s)) c)) ctx idx Hr') as (snap & Hin & Hs); [rewrite Es; left; reflexivity|].
+      exists snap. split; [exact Es|]. split; [|exact Hs].
+      destruct (request_rule s _ s' H) as [E|(c1 & ctx1 & El1 & _)]; [rewrite <- E; exact Hin|discriminate].
+  Qed.
+
+  (* A leader that has been superseded -- a commit point of a later term existed when the
+     request was recorded -- never answers that request. *)
+  Theorem stale_leader_silent s r T k : rreachable s -> In r (pr_reqs s) ->
+    In (T, k) (rq_snap r) -> rq_t r < T ->
+    forall idx, ~ In (rq_c r, rq_t r, rq_ctx r, idx) (pr_served s).
+  Proof.
+    intros Hr Hin HTk HT idx Hs. pose proof (rreachable_RInv inc out inc_nonempty Hmulti s Hr) as HI.
+    destruct (r_served inc out s HI _ _ _ _ Hs) as (snap & Hin' & Hsn).
+    assert (E : (rq_c r, rq_t r, rq_ctx r, idx, snap) = r) by (apply (r_uniq inc out s HI); auto).
+    rewrite <- E in HTk. cbn in HTk. destruct (Hsn T k HTk) as [Hle _]. lia.
+  Qed.
+
+  Lemma rsteps_reachable s s' : rreachable s -> rsteps s s' -> rreachable s'.
+  Proof. intros Hr Hs. induction Hs as [|s s1 l s2 _ IH Hstep]; [exact Hr|]. eapply rreach_step; [apply IH; exact Hr|exact Hstep]. Qed.
+
+  Lemma rsteps_reqs s s' r : rsteps s s' -> In r (pr_reqs s) -> In r (pr_reqs s').
+  Proof.
+    intros Hs Hin. induction Hs as [|s s1 l s2 _ IH Hstep]; [exact Hin|].
+    destruct (request_rule s1 l s2 Hstep) as [E|(c & ctx & _ & _ & _ & _ & E)]; rewrite E; [auto|].
+    apply in_or_app. left. auto.
+  Qed.
+
+  (* The property in its own words: the index answered for a request is at least the commit
+     index ANY node had reached when the request was issued. *)
+  Theorem read_index_ge_commit s0 c ctx s1 s idx : rreachable s0 ->
+    rrule (RReadReq c ctx) s0 = Some s1 -> rsteps s1 s ->
+    In (c, p_term (nodes (el (pr_lg s0)) c), ctx, idx) (pr_served s) ->
+    idx = l_commit (ln (pr_lg s0) c) /\ forall n, (l_commit (ln (pr_lg s0) n) <= idx)%nat.
+  Proof.
+    intros Hr0 Hreq Hsteps Hs.
+    assert (Hr1 : rreachable s1) by (eapply rreach_step; eassumption).
+    pose proof (rsteps_reachable s1 s Hr1 Hsteps) as Hr.
+    pose proof (rreachable_RInv inc out inc_nonempty Hmulti s Hr) as HI.
+    set (t := p_term (nodes (el (pr_lg s0)) c)) in *.
+    set (r0 := (c, t, ctx, l_commit (ln (pr_lg s0) c), cpts (pr_lg s0))).
+    assert (Hin0 : In r0 (pr_reqs s)).
+    { apply (rsteps_reqs s1 s r0 Hsteps). apply rreadreq_inv in Hreq. cbv zeta in Hreq.
+      destruct Hreq as (_ & _ & _ & _ & _ & ->). cbn. apply in_or_app. right. left. reflexivity. }
+    destruct (r_served inc out s HI _ _ _ _ Hs) as (snap & Hin & Hsn).
+    assert (E : (c, t, ctx, idx, snap) = r0) by (apply (r_uniq inc out s HI); auto).
+    inversion E; subst idx snap. split; [reflexivity|]. intros n.
+    destruct (Nat.eq_dec (l_commit (ln (pr_lg s0) n)) 0) as [E0|Hpos]; [lia|].
+    destruct (commit_le_cpt inc out inc_nonempty Hmulti (pr_lg s0) n (rreachable_lg inc out s0 Hr0)) as (T & k & HTk & Hk); [lia|].
+    destruct (Hsn T k HTk) as [_ Hle]. lia.
+  Qed.
+End C08.
